@@ -27,7 +27,7 @@ using booster::ptime;
 struct HRec {
 	std::string kind; int count = 0; int thread = -2; int64_t t_us = 0; int code = 0; std::string cat; size_t n = 0;
 	int64_t deadline_us = -1; int fd = -1; int dir = 0; uint64_t armed_seq = 0; size_t readable_at_call = 0; bool posted_after_stop = false; bool cancel_ok = false; bool threw = false;
-	size_t want = 0; std::string data; int life = 1; bool aba = false;   // aba: wait on a descriptor whose number was re-used while the cancel of the previous device was still deferred (known finding)
+	size_t want = 0; std::string data; int life = 1; bool aba = false; bool must_cancel = false, in_call = false, ran_in_call = false;   /* must_cancel: cancel() was called while this timer wait was pending and not yet due */   // aba: wait on a descriptor whose number was re-used while the cancel of the previous device was still deferred (known finding)
 };
 struct World {
 	std::vector<HRec> h; int live_functors = 0; int loop_thread = -1, loop_thread2 = -1; bool stop_called = false; bool pair_starved = false; int pair_waits = 0; int loop_restarts = 0;
@@ -42,7 +42,7 @@ struct Fn {
 	explicit Fn(int i) : id(i) { W->live_functors++; }
 	Fn(const Fn &o) : id(o.id) { W->live_functors++; }
 	~Fn() { W->live_functors--; }
-	void note(int code,const std::string &cat,size_t n) const { simk::TsanIgnore ign; simk::tracef("handler #%d invoked code=%d n=%zu",id,code,n); HRec &r = W->h[id]; r.count++; r.thread = simk::self_id(); r.t_us = simk::now_us(); r.code = code; r.cat = cat; r.n = n; }
+	void note(int code,const std::string &cat,size_t n) const { simk::hb_release(&W->h[id]); simk::TsanIgnore ign; simk::tracef("handler #%d invoked code=%d n=%zu",id,code,n); HRec &r = W->h[id]; r.count++; r.thread = simk::self_id(); r.t_us = simk::now_us(); r.code = code; r.cat = cat; r.n = n; }
 	void operator()() const { note(0,"",0); }
 	void operator()(booster::system::error_code const &e) const {
 		simk::TsanIgnore ign;
@@ -51,7 +51,7 @@ struct Fn {
 			if(r.dir == aio::io_events::in && !e){ int nb = 0; ioctl(r.fd,FIONREAD,&nb); r.readable_at_call = nb; char buf[4096]; while(::read(r.fd,buf,sizeof(buf)) > 0){} } }
 		note(e.value(),e ? e.category().name() : "",0);
 	}
-	void operator()(booster::system::error_code const &e,size_t n) const { note(e.value(),e ? e.category().name() : "",n); }
+	void operator()(booster::system::error_code const &e,size_t n) const { { simk::TsanIgnore ign; if(W->h[id].in_call) W->h[id].ran_in_call = true; } note(e.value(),e ? e.category().name() : "",n); }
 };
 
 // a posted handler that throws: the exception leaves run(); the documentation allows calling run() again, and the handler has run (once)
@@ -98,7 +98,7 @@ struct E6 : Engine {
 				else if(x < 78 && npairs){ o["op"] = xthread ? "xcancel_io" : "cancel_io"; o["p"] = (int)r.below(npairs); }
 				else if(x < 90 && npairs){ o["op"] = "ready"; o["p"] = (int)r.below(npairs); o["n"] = 1 + (int)r.below(50); }
 				else if(x < 93){ o["op"] = "sleep"; o["ms"] = (int)r.below(25); }
-				else if(x < 97){ o["op"] = "dev"; o["early"] = (int)r.below(3); o["dir2"] = (int)r.below(2); o["gap"] = (int)r.below(3); o["settle"] = (int)(r.below(3) != 0); }   // a device owned by this thread: armed, closed by this thread, then a new device on the re-used descriptor number
+				else if(x < 97){ o["op"] = "dev"; o["early"] = (int)r.below(3); o["dir2"] = (int)r.below(2); o["gap"] = (int)r.below(3); o["settle"] = (int)(r.below(3) != 0); o["xfer"] = r.below(2) ? (int)(1 + r.below(50)) : 0; }   // a device owned by this thread: armed, closed by this thread, then a new device on the re-used descriptor number
 				else { o["op"] = "yield"; }
 				ops.push(o); }
 			th.push(ops); }
@@ -106,7 +106,8 @@ struct E6 : Engine {
 		// timers/chains armed from inside the loop thread through deadline_timer / stream_socket objects
 		J ch = J::arr(); int nch = r.below(3);
 		for(int i=0;i<nch;i++){ J c = J::obj(); unsigned x = r.below(3);
-			if(x == 0){ c["kind"] = "dtimer"; c["ms"] = (int)r.below(30); c["cancel_after_ms"] = r.below(2) ? (int)r.below(40) : -1; }
+			if(x == 0 && r.below(2)){ c["kind"] = "ptimer"; c["ms"] = 1 + (int)r.below(12); c["times"] = 2 + (int)r.below(5); c["cancel_after_ms"] = r.below(4) ? (int)r.below(60) : -1; }   // periodic: the handler re-arms the same timer from inside; cancel() must stop the wait pending then
+			else if(x == 0){ c["kind"] = "dtimer"; c["ms"] = (int)r.below(30); c["cancel_after_ms"] = r.below(2) ? (int)r.below(40) : -1; }
 			else if(x == 1){ c["kind"] = "read"; c["want"] = 1 + (int)r.below(3000); c["feed"] = (int)r.below(4000); c["chunk"] = 1 + (int)r.below(700); c["close_peer"] = r.below(3) == 0; c["cancel_after_ms"] = r.below(3) == 0 ? (int)r.below(20) : -1; c["close"] = (int)r.below(2); }
 			else { c["kind"] = "write"; c["len"] = 1 + (int)r.below(20000); c["cap"] = 1 + (int)r.below(3000); c["drain"] = 1 + (int)r.below(2000); c["cancel_after_ms"] = r.below(4) == 0 ? (int)r.below(20) : -1; c["close"] = (int)r.below(2); }
 			ch.push(c); }
@@ -164,7 +165,7 @@ struct E6 : Engine {
 	}
 
 	// ---------------------------------------------------------------- event loop
-	struct Chain { bool close_instead = false, closed = false; std::string kind; std::unique_ptr<aio::stream_socket> sock; std::unique_ptr<aio::deadline_timer> timer, canceler; int hid = -1; int peer = -1; std::string buf; std::string sent; size_t fed = 0, feed = 0, chunk = 1, drain = 1; bool close_peer = false; std::string drained; int cancel_after = -1; bool peer_closed = false; };
+	struct Chain { int period_ms = 0, times_left = 0, cur_hid = -1; bool close_instead = false, closed = false; std::string kind; std::unique_ptr<aio::stream_socket> sock; std::unique_ptr<aio::deadline_timer> timer, canceler; int hid = -1; int peer = -1; std::string buf; std::string sent; size_t fed = 0, feed = 0, chunk = 1, drain = 1; bool close_peer = false; std::string drained; int cancel_after = -1; bool peer_closed = false; };
 
 	void run_loop(const J &plan,RunResult &res,World &w){
 		int rt = (int)(((plan.geti("reactor") % 3) + 3) % 3); int reactor_type = rt == 0 ? aio::reactor::use_epoll : rt == 1 ? aio::reactor::use_poll : aio::reactor::use_select;
@@ -195,6 +196,18 @@ struct E6 : Engine {
 					int ms = (int)std::max<int64_t>(0,std::min<int64_t>(c.geti("ms"),100000)); ch->hid = w.add("dtimer");
 					srv.post([&srv,&w,cp,ms]{ cp->timer.reset(new aio::deadline_timer(srv)); cp->timer->expires_from_now(ptime::milliseconds(ms)); w.h[cp->hid].deadline_us = simk::now_us() + ms*1000LL; cp->timer->async_wait(Fn(cp->hid));
 						if(cp->cancel_after >= 0){ cp->canceler.reset(new aio::deadline_timer(srv)); cp->canceler->expires_from_now(ptime::milliseconds(cp->cancel_after)); cp->canceler->async_wait([cp](booster::system::error_code const &){ cp->timer->cancel(); }); } });
+				}
+				else if(ch->kind == "ptimer"){
+					ch->period_ms = (int)std::max<int64_t>(1,std::min<int64_t>(c.geti("ms",5),1000)); ch->times_left = (int)std::max<int64_t>(1,std::min<int64_t>(c.geti("times",3),8)); ch->hid = -1;
+					// every async_wait gets its own handler record; the handler re-arms the same deadline_timer object from inside itself
+					struct Rearm { static void arm(Chain *cp,World *w){ int h = w->add("ptimer"); cp->cur_hid = h; cp->timer->expires_from_now(ptime::milliseconds(cp->period_ms)); w->h[h].deadline_us = simk::now_us() + cp->period_ms*1000LL;
+						Fn fn(h); cp->timer->async_wait([cp,w,fn](booster::system::error_code const &e){ fn(e); if(!e && --cp->times_left > 0) arm(cp,w); }); } };
+					World *wp = &w;
+					srv.post([&srv,wp,cp]{ cp->timer.reset(new aio::deadline_timer(srv)); Rearm::arm(cp,wp);
+						if(cp->cancel_after >= 0){ cp->canceler.reset(new aio::deadline_timer(srv)); cp->canceler->expires_from_now(ptime::milliseconds(cp->cancel_after)); cp->canceler->async_wait([cp,wp](booster::system::error_code const &){
+							// the wait pending now (if its deadline is still ahead it cannot have been queued as fired) must be completed with a cancellation
+							if(cp->cur_hid >= 0 && wp->h[cp->cur_hid].count == 0 && wp->h[cp->cur_hid].deadline_us > simk::now_us()) wp->h[cp->cur_hid].must_cancel = true;
+							cp->timer->cancel(); }); } });
 				}
 				else if(ch->kind == "read" || ch->kind == "write"){
 					int sv[2]; socketpair(AF_UNIX,SOCK_STREAM,0,sv); fcntl(sv[1],F_SETFL,O_NONBLOCK); ch->peer = sv[1];
@@ -257,7 +270,12 @@ struct E6 : Engine {
 						int sw[2]; if(socketpair(AF_UNIX,SOCK_STREAM,0,sw) != 0) continue; fcntl(sw[1],F_SETFL,O_NONBLOCK); bool stale2 = stale_hit(sw[0],sw[1]);
 						{ aio::stream_socket s2(srv); s2.assign(sw[0]); s2.set_non_blocking(true); bool out = o.geti("dir2") != 0;
 						  int h2 = w.add(out ? "dev_out2" : "dev_in2"); w.h[h2].aba = stale2; if(out) s2.on_writeable(Fn(h2)); else { s2.on_readable(Fn(h2)); hwrite(sw[1],"y"); }
-						  bool got = simk::block([&w,h2]{ return w.h[h2].count > 0; },simk::now_us()+60LL*1000000,"dev-wait");
+						  bool got = simk::block([&w,h2]{ return w.h[h2].count > 0; },simk::now_us()+60LL*1000000,"dev-wait"); if(got) simk::hb_acquire(&w.h[h2]);
+						  // operations with a continuation, issued by this (non-loop) thread: their completion handlers run on the loop thread too, never inside the call
+						  int h3 = -1; std::string wb; if(got && o.geti("xfer") && !stale2){ wb.assign(600 + (size_t)(o.geti("xfer") * 37 % 900),'w'); aio::const_buffer cb; size_t pieces = 18 + (size_t)(o.geti("xfer") % 5), per = wb.size() / pieces;   // more chunks than one writev takes
+							for(size_t k=0;k<pieces;k++) cb = cb + aio::buffer(wb.data() + k*per,k + 1 == pieces ? wb.size() - k*per : per);
+							h3 = w.add("dev_awrite"); w.h[h3].want = wb.size(); { simk::TsanIgnore ign; w.h[h3].in_call = true; } s2.async_write(cb,Fn(h3)); { simk::TsanIgnore ign; w.h[h3].in_call = false; }
+							bool g3 = simk::block([&w,h3]{ return w.h[h3].count > 0; },simk::now_us()+60LL*1000000,"dev-awrite"); if(g3) simk::hb_acquire(&w.h[h3]); if(!g3 && res.ok) tfail("handler-never-invoked","async_write of " + std::to_string(wb.size()) + " bytes in " + std::to_string(pieces) + " chunks issued by the thread that owns the device: no completion within 60 simulated seconds"); }
 						  if(!got && res.ok) tfail(!stale2 ? "io-wait-lost-after-device-close" : "reused-descriptor:io-wait-lost",std::string(out ? "writable" : "readable") + " wait on descriptor " + std::to_string(sw[0]) + " (number re-used after a device was closed by a non-loop thread" + (!stale2 ? " and the loop had processed everything queued before" : " while its cancel was still deferred") + "; first device had " + std::to_string(sv[0]) + ") was not completed within 60 simulated seconds although the event had happened",!stale2 ? "" : "descriptor-reused-before-deferred-cancel");
 						  if(stale2 || stale1){ simk::TsanIgnore ign; w.dev_stale++; }
 
@@ -327,12 +345,14 @@ struct E6 : Engine {
 			if(r.thread != (r.life == 2 ? w.loop_thread2 : w.loop_thread)) res.fail("wrong-thread",nm + " ran on thread " + std::to_string(r.thread) + ", the loop runs on " + std::to_string(r.life == 2 ? w.loop_thread2 : w.loop_thread));
 			bool canceled = r.code == aio::aio_error::canceled && r.cat == aio::aio_error_cat.name();
 			if(r.code == 0) n_ok++; else n_cancel++;
-			if(r.kind == "timer" || r.kind == "dtimer"){
+			if(r.kind == "ptimer" && r.must_cancel && r.code == 0) res.fail("cancelled-timer-fired",nm + ": cancel() was called on the deadline_timer while this wait (armed from inside the previous handler) was pending and not yet due, yet the handler was invoked with success " + std::to_string((long)((r.t_us - r.deadline_us)/1000)) + " ms after its deadline");
+			if(r.kind == "timer" || r.kind == "dtimer" || r.kind == "ptimer"){
 				if(r.code == 0 && r.t_us < r.deadline_us) res.fail("timer-fired-early",nm + " fired " + std::to_string((long)(r.deadline_us - r.t_us)) + " us before its deadline");
 				if(r.code != 0 && !canceled) res.fail("unexpected-error-code",nm + " got error " + std::to_string(r.code) + "/" + r.cat); }
 			if(r.kind == "io_in" && r.code == 0 && r.readable_at_call == 0) res.fail("io-success-without-event",nm + " reported readable but nothing was there");
 			if((r.kind == "io_in" || r.kind == "io_out") && r.code != 0 && !canceled && !(r.cat == aio::aio_error_cat.name() && r.code == aio::aio_error::select_failed)) res.fail("unexpected-error-code",nm + " got error " + std::to_string(r.code) + "/" + r.cat);
 			if(r.kind == "post" && r.code != 0) res.fail("unexpected-error-code",nm + " got an error code");
+			if(r.kind == "dev_awrite"){ if(r.code != 0 || r.n != r.want) res.fail("short-async-write",nm + ": async_write on a fresh device completed with code " + std::to_string(r.code) + " after " + std::to_string(r.n) + " of " + std::to_string(r.want) + " bytes"); }
 			if((r.kind == "dev_in2" || r.kind == "dev_out2") && r.code != 0) res.fail("unexpected-error-code",nm + " (wait on a fresh device whose event had happened) got error " + std::to_string(r.code) + "/" + r.cat);
 			if(r.kind == "dev_in" && r.code == 0 && r.want == 0) res.fail("io-success-without-event",nm + " reported readable but the peer never wrote");
 		}
